@@ -1,6 +1,6 @@
 (* PipelineHeaderFacts.v -- the program with its comment header (coq/PipelineHeader.v). *)
 From Coq Require Import ZArith List Bool Ascii String Lia.
-From Cnfgen Require Import Sem Comb Linear Text Dimacs DimacsFacts EndToEnd Header HeaderFacts Cli PipelineGraph Pipeline PipelineFacts PipelineHeader.
+From Cnfgen Require Import Sem Comb Linear Text Dimacs DimacsFacts OpbText EndToEnd Header HeaderFacts Cli PipelineGraph Pipeline PipelineFacts PipelineHeader.
 Import ListNotations.
 Open Scope Z_scope.
 
@@ -40,14 +40,14 @@ Qed.
 (* with or without header, the text reads back as the formula *)
 Theorem env_roundtrip version argv text : cnfgen_main_env version argv = POut text ->
   exists n F hh, pl_formula argv = FrOk n F /\ pl_header_choice version argv = Some hh /\
-                 text = print_dimacs hh None n F /\ 0 <= n /\ lits_in_range n F = true /\
-                 (printable n -> printable (len F) -> forall u, parse_dimacs u text = DOk n F).
+                 text = pl_write (pl_opb_of argv) hh n F /\ 0 <= n /\ lits_in_range n F = true /\
+                 (printable n -> printable (len F) -> pl_reads_back (pl_opb_of argv) text n F).
 Proof.
   unfold cnfgen_main_env. destruct (pl_formula argv) as [n F| | |] eqn:E; cbn [pl_render_env]; try discriminate.
   destruct (pl_header_choice version argv) as [hh|] eqn:Eh; [|discriminate]. intros H. inversion H; subst.
   destruct (pl_formula_in_range argv n F E) as [Hn HR].
   exists n, F, hh. repeat split; try assumption; try reflexivity.
-  intros P1 P2 u. now apply in_range_roundtrip.
+  intros P1 P2. now apply pl_write_reads_back.
 Qed.
 
 (* the header: description, generator, copyright, url, then one numbered entry per transformation that records one,
